@@ -30,7 +30,7 @@ RULE = (
 )
 ASSUMPTIONS = [
     "sim.ipsref defines 'well-formed IPS file' and classifies damaged files (missing_header, truncated_record, missing_eof, trailing_bytes)",
-    "no accept/reject verdict for files whose only defect is a missing EOF marker or bytes after EOF (the statement is silent)",
+    "no accept/reject verdict for files whose only defect is bytes after the EOF marker (the statement is silent); a missing EOF marker is 'not well-formed' and must be rejected",
     "record targets (offset+delta) never overlap the host program's own output, so the order between host blocks and patch blocks does not matter",
     "short raw reads are only injected below a BufferedReader (legal for any raw stream)",
 ]
@@ -153,7 +153,7 @@ def gen_case(cseed: int, tier: str) -> dict[str, Any]:
     recs = gen_records(w, delta)
     slots = [s for s in progen.iter_slots(prog) if s["assembled"] and not (s["file"] == "main.s" and not s["path"] and s["pos"] == 0)]
     slot = w.choice(slots)
-    dform = w.choice(["lit", "lit", "const", "const_reassigned"])
+    dform = w.choice(["lit", "lit", "const", "const_reassigned", "const_signed", "macro_arg"])
     return {
         "type": "base",
         "seed": cseed,
@@ -179,6 +179,28 @@ def host_with_directive(case: dict[str, Any]) -> progen.Prog:
     prog = progen.Prog.from_record(case["prog"])
     delta = case["delta"]
     nodes: list[progen.Node] = []
+    if case.get("delta_form") in ("const_signed", "macro_arg"):
+        # the (possibly negative) delta reaches the directive through a symbol / a macro argument
+        lit = f"{delta:#x}" if delta >= 0 else f"-{-delta:#x}"
+        path0 = case.get("patch_path") or "p.ips"
+        if case["delta_form"] == "const_signed":
+            head = [{"k": "stmt", "t": f"DELTA_zq := {lit}"}]
+            body = {"k": "include_ips", "t": f".include_ips '{path0}', DELTA_zq", "under_test": True}
+        else:
+            head = [progen.block(".macro inc_zq(off_zq) {", [{"k": "include_ips", "t": f".include_ips '{path0}', off_zq", "under_test": True}], "macro_def")]
+            body = {"k": "apply", "t": f"inc_zq({lit})", "under_test": True}
+        prog = progen.clone(prog)  # never mutate the case record (it is shared by all sub-cases)
+        prog.root[0:0] = head
+        slot = dict(case["slot"])
+        if slot["file"] == "main.s":
+            if not slot["path"]:
+                slot["pos"] += 1
+            else:
+                slot["path"] = [(slot["path"][0][0] + 1, slot["path"][0][1])] + [tuple(x) for x in slot["path"][1:]]
+        prog = progen.insert_at(prog, slot, body)
+        if case.get("second_delta") is not None:
+            prog.root.append({"k": "include_ips", "t": f".include_ips '{path0}', {case['second_delta']:#x}", "under_test": True})
+        return prog
     if case.get("delta_form") in ("const", "const_reassigned"):
         text = f"DELTA_zq := {abs(delta):#x}"
         expr = "DELTA_zq" if delta >= 0 else "0 - DELTA_zq"
@@ -193,13 +215,13 @@ def host_with_directive(case: dict[str, Any]) -> progen.Prog:
         expr = f"{delta:#x}" if delta >= 0 else f"-{-delta:#x}"
         slot = case["slot"]
     path = case.get("patch_path") or "p.ips"
-    prog = progen.insert_at(prog, slot, {"k": "include_ips", "t": f".include_ips '{path}', {expr}"})
+    prog = progen.insert_at(prog, slot, {"k": "include_ips", "t": f".include_ips '{path}', {expr}", "under_test": True})
     if case.get("delta_form") == "const_reassigned":
         # the assembly-time variable gets another value later: the directive must use the value it had
         prog.root.append({"k": "stmt", "t": "DELTA_zq := 0x777"})
     if case.get("second_delta") is not None:
         # the same stored patch included a second time with another delta (targets 4 MiB further up)
-        prog.root.append({"k": "include_ips", "t": f".include_ips '{path}', {case['second_delta']:#x}"})
+        prog.root.append({"k": "include_ips", "t": f".include_ips '{path}', {case['second_delta']:#x}", "under_test": True})
     return prog
 
 
@@ -258,8 +280,22 @@ def part_at(spans: list[tuple[int, int, str]], at: int) -> str:
 
 
 def run_single(case: dict[str, Any], stats: Stats) -> list[Violation]:
-    host = progen.Prog.from_record(case["prog"])
     prog = host_with_directive(case)
+    # reference: the very same program text minus the .include_ips lines (keeps the DELTA_zq assignments,
+    # so a tree that rejects re-assignment of a ':=' variable gives "no verdict", not an alarm)
+    host = progen.clone(prog)
+
+    def strip(nodes: list[progen.Node]) -> None:
+        nodes[:] = [n for n in nodes if not n.get("under_test")]
+        for n in nodes:
+            if "body" in n:
+                strip(n["body"])
+            if n.get("else_body") is not None:
+                strip(n["else_body"])
+
+    strip(host.root)
+    for nodes in host.inc_roots.values():
+        strip(nodes)
     base_twin = twin_of(host.all_files(), host.all_roles(), host.mapping, [])
     if not base_twin["ok"]:
         stats.bump("generator_discard(host fails)")
@@ -336,7 +372,9 @@ def run_single(case: dict[str, Any], stats: Stats) -> list[Violation]:
                 img.write(rec[0] + case["second_delta"], ipsref.record_bytes(rec))
         return img
 
-    must_fail = klass in ("missing_header", "truncated_record", "missing") or bool(o["fired"])
+    # "PATCH, records, EOF": a file that ends at a record boundary without the EOF marker is not a
+    # well-formed IPS patch either (only bytes *after* EOF are left without an accept/reject verdict)
+    must_fail = klass in ("missing_header", "truncated_record", "missing_eof", "missing") or bool(o["fired"])
     if must_fail:
         if o["ok"]:
             why = "an injected read error fired" if o["fired"] else f"the stored file is not a well-formed IPS patch ({klass})"
@@ -506,7 +544,7 @@ def shrink_candidates(case: dict[str, Any]) -> Iterator[dict[str, Any]]:
     if case["slot"]["ctx"] == "top" and case["slot"]["file"] == "main.s":
         # statement removal keeps top-level slot positions valid only when removing after the slot
         for p in progen.iter_removals(host):
-            if len(p.root) < len(host.root) and case["slot"]["pos"] <= len(p.root) and case.get("delta_form") not in ("const", "const_reassigned"):
+            if len(p.root) < len(host.root) and case["slot"]["pos"] <= len(p.root) and case.get("delta_form") not in ("const", "const_reassigned", "const_signed", "macro_arg"):
                 c = dict(case)
                 c["prog"] = p.to_record()
                 c["slot"] = dict(case["slot"], pos=min(case["slot"]["pos"], len(p.root)))
